@@ -379,6 +379,27 @@ func run(c *core.Ctx) {
 		}
 	}
 	c.SetExhaustive("all pairs of fields x reduced corpus")
+	for _, n := range gen.BoundaryLens() {
+		idx++
+		if !c.Mine(idx) {
+			continue
+		}
+		for _, sp := range []string{";", "\"", "\\", "/*", ":", "}", "\n", "<", "\xe2\""} {
+			v := gen.Pad("a", n) + sp
+			check(c, map[string][]string{"Width": {v}, "Color": {"red"}})
+			check(c, map[string][]string{"FontFamily": {v, "x"}})
+			check(c, map[string][]string{"BackgroundImageURLs": {"/" + v}})
+			check(c, map[string][]string{"Display": {gen.Pad("block", n)}, "Width": {gen.Pad("block", n)}})
+		}
+	}
+	// the same value in different fields, one after the other (results must not depend on history)
+	for i := 0; i < 50; i++ {
+		for _, v := range []string{"7px 3em", "#fff", "50%", "1/2", "none !important", "12em", "block", "a,b"} {
+			check(c, map[string][]string{"Width": {v}})
+			check(c, map[string][]string{"Display": {v}})
+			check(c, map[string][]string{"Display": {v}, "Width": {v}})
+		}
+	}
 	// seeded full assignments
 	r := c.Rng("full")
 	n := c.N(400000, 6000000) / c.NShards
